@@ -9,6 +9,7 @@ const APPENDERS: [&str; 3] = ["A", "B", "C"]; // C is declared but never attache
 pub struct Built {
     pub logger: log4rs::Logger,
     pub counters: Vec<Arc<Counter>>,
+    pub reported: Arc<Counter>,
 }
 
 /// Builds the configuration of a case with the given declaration orders.
@@ -36,7 +37,12 @@ pub fn build(case: &Value, lperm: &[usize], aperm: &[usize]) -> Result<Built, St
     let cfg = b
         .build(rb.build(level_filter(case["root"]["lvl"].as_i64().unwrap())))
         .map_err(|e| format!("strict build refused a valid configuration: {}", e))?;
-    Ok(Built { logger: log4rs::Logger::new(cfg), counters })
+    let reported = Arc::new(Counter::default());
+    let rep = reported.clone();
+    let logger = log4rs::Logger::new_with_err_handler(cfg, Box::new(move |_| {
+        rep.n.fetch_add(1, Ordering::Relaxed);
+    }));
+    Ok(Built { logger, counters, reported })
 }
 
 fn expected_counts(cls: &Value) -> [usize; 3] {
@@ -48,7 +54,7 @@ fn expected_counts(cls: &Value) -> [usize; 3] {
     c
 }
 
-pub fn check_case(case: &Value, targets: &[String], max_perms: usize) -> Vec<Value> {
+pub fn check_case(ci: usize, case: &Value, targets: &[String], max_perms: usize) -> Vec<Value> {
     let nl = case["loggers"].as_array().unwrap().len();
     let mut lperms = permutations(nl);
     lperms.truncate(max_perms.max(1));
@@ -74,6 +80,15 @@ pub fn check_case(case: &Value, targets: &[String], max_perms: usize) -> Vec<Val
                 continue;
             }
         };
+        // which appenders fail (Routing.tla, Reported): none, all, only A
+        let failing: [bool; 3] = match (pi + ci) % 3 {
+            0 => [false; 3],
+            1 => [true; 3],
+            _ => [true, false, false],
+        };
+        for (c, f) in built.counters.iter().zip(failing) {
+            c.fail.store(f, Ordering::Relaxed);
+        }
         let maxl = filter_num(built.logger.max_log_level());
         if maxl != case["max"].as_i64().unwrap() {
             out.push(json!({"what": "max_log_level", "expected": case["max"], "actual": maxl, "order": lperm}));
@@ -92,6 +107,7 @@ pub fn check_case(case: &Value, targets: &[String], max_perms: usize) -> Vec<Val
                 for c in &built.counters {
                     c.n.store(0, Ordering::Relaxed);
                 }
+                built.reported.n.store(0, Ordering::Relaxed);
                 let r = catch(|| {
                     built.logger.log(
                         // module path, file and line must play no part in routing: give them values that
@@ -108,7 +124,14 @@ pub fn check_case(case: &Value, targets: &[String], max_perms: usize) -> Vec<Val
                 let want: Vec<usize> = if admitted { exp.to_vec() } else { vec![0, 0, 0] };
                 if got != want {
                     out.push(json!({"what": "deliveries", "target": t, "level": l, "expected": want, "actual": got,
-                                    "appenders": APPENDERS, "order": lperm}));
+                                    "appenders": APPENDERS, "failing": failing, "order": lperm}));
+                    break 'targets;
+                }
+                let rep = built.reported.n.load(Ordering::Relaxed);
+                let want_rep: usize = want.iter().zip(failing).map(|(n, f)| if f { *n } else { 0 }).sum();
+                if rep != want_rep {
+                    out.push(json!({"what": "errors reported", "target": t, "level": l, "expected": want_rep, "actual": rep,
+                                    "failing": failing, "order": lperm}));
                     break 'targets;
                 }
             }
@@ -132,7 +155,7 @@ pub fn main(args: &[String]) {
         .collect();
     let cases: Vec<&Value> = rows.iter().filter(|r| r.get("meta").is_none()).collect();
     let res = par_map(&cases, threads(), |i, c| {
-        let mm = check_case(c, &targets, 6);
+        let mm = check_case(i, c, &targets, 6);
         mm.into_iter().take(1).map(|m| json!({"case": i, "config": {"root": c["root"], "loggers": c["loggers"]}, "mismatch": m})).collect()
     });
     write_ndjson(&args[1], &res);
